@@ -700,6 +700,51 @@ def r03_5(prog, rep, rid="R03.5"):
                              "(or, for the first argument, all of them) are silently left out of the merge" % (t, S.node["fn"]))
     if n < 4:
         rep.broken_("rule=%s expected >=4 list arguments of the mux constructors, found %d" % (rid, n))
+    # callee side: the named first stream is part of the list — it must be taken (stored / handed on) before va_arg overwrites it
+    m = 0
+    for f in prog.fns_in("evstrm.c"):
+        if not f.cfg:
+            continue
+        cfg = f.cfg
+        for S in call_sites(f, "__builtin_va_start"):
+            if len(S.node["a"]) < 2:
+                continue
+            p_ = strip_casts(cfg.resolve(S.node["a"][1]))
+            if p_.get("k") != "ref" or p_.get("dk") != "param":
+                continue
+            pn = p_["n"]
+            m += 1
+
+            def visit(b_, i_, x_, _pn=pn):
+                if not isinstance(x_, dict):
+                    return None
+                taken = False
+                for c in calls(x_):
+                    if (c.get("fn") or "").startswith("__builtin_"):
+                        continue        # va_start(ap, s), __builtin_expect(s == NULL, 0): tests, not uses
+                    if any(nn.get("k") == "ref" and nn.get("n") == _pn for a in c["a"] for nn in walk(cfg.resolve(a))):
+                        taken = True
+                over = False
+                for l, kind, nn in writes(x_):
+                    rhs = nn.get("init") if kind == "decl" else (nn.get("r") if nn.get("k") == "bin" else None)
+                    if lv(l) == _pn:
+                        over = True
+                    elif rhs is not None and any(q.get("k") == "ref" and q.get("n") == _pn for q in walk(cfg.resolve(rhs))):
+                        taken = True
+                if taken:
+                    return "stop"
+                return "hit" if over else None
+            hits, _ = forward_scan(cfg, (cfg.entry, -1), visit)
+            key = "%s/first-stream-taken(%s)" % (f.name, pn)
+            if hits:
+                hb, hi = hits[0]
+                rep.fail(rid, key, f.loc(cfg.blocks[hb].elems[hi].get("line")),
+                         "the named argument %s of %s() is overwritten by the next list element before it has been taken: the first stream of every "
+                         "merge is silently left out" % (pn, f.name))
+            else:
+                rep.ok(rid, key, f.loc(S.line), "%s is stored before va_arg() replaces it" % pn)
+    if m < 2:
+        rep.broken_("rule=%s expected >=2 variadic mux constructors, found %d" % (rid, m))
 
 
 def r03_3c(prog, rep):
